@@ -27,6 +27,7 @@ def oracle(dp, cmds, steps, upto):
                 bounds[c[1]] = (Fraction(c[2]), Fraction(c[3]))
         pos0 = [p if isinstance(p, Fraction) else Fraction(0) for p in before["pos"]]
         cur = list(pos0)
+        nrel = [0, 0, 0]
         for raw in s["raw"]:
             toks = O.tokenize(raw)
             if toks is None:
@@ -64,17 +65,21 @@ def oracle(dp, cmds, steps, upto):
                 for k, a in enumerate("XYZ"):
                     if a in d:
                         tgt[k] = (cur[k] + d[a]) if rel else d[a]
+                        # every relative word is rounded before the machine adds it: the position reconstructed from the
+                        # words of this call drifts from the bounded (tracked) target by up to half a unit per word (C01)
+                        nrel[k] = nrel[k] + 1 if rel else 0
                 for k, a in enumerate("XYZ"):
-                    if a in d and not (lo[k] - eps * 2 <= tgt[k] <= hi[k] + eps * 2):
+                    if a in d and not (lo[k] - eps * (2 + nrel[k]) <= tgt[k] <= hi[k] + eps * (2 + nrel[k])):
                         fails.append((i, "%r emitted %r: target %s=%s outside the axes box [%s, %s]"
                                       % (cmd_json(c), raw, a, float(tgt[k]), float(lo[k]), float(hi[k])), "word:axes"))
                 cur = tgt
         # an accepted move ends inside the box: the tracked position itself (exact, not only its rounded word) -- C03_target_*
-        if s["exc"] is None and s["raw"] and c[0] in ("move", "move_abs") and "axes" in bounds and not transformed:
+        if s["exc"] is None and s["raw"] and c[0] in ("move", "move_abs", "trace", "polyline") and "axes" in bounds and not transformed:
             lo, hi = bounds["axes"]
             for k, a in enumerate("xyz"):
                 v = s["snap"]["pos"][k]
-                if c[2].get(a) is not None and isinstance(v, Fraction) and not (lo[k] <= v <= hi[k]):
+                moved = c[2].get(a) is not None if c[0] in ("move", "move_abs") else True
+                if moved and isinstance(v, Fraction) and not (lo[k] <= v <= hi[k]):
                     fails.append((i, "%r was accepted and moved %s to %s (%.3g past the limit), outside the axes box [%s, %s]"
                                   % (cmd_json(c), a.upper(), float(v), float(max(v - hi[k], lo[k] - v)), float(lo[k]), float(hi[k])), "target:axes"))
         if c[0] == "set_transform":
